@@ -362,6 +362,8 @@ impl<I: Iterator<Item = u8>> BitIter<I> {
                 // This is an attempted conversion to usize. See above comment.
                 len = n.try_into().map_err(|_| DecodeNaturalError::Overflow)?;
                 if len > 31 {
+                    #[cfg(feature = "verif-hooks")]
+                    crate::verif::probe(7);
                     return Err(DecodeNaturalError::Overflow);
                 }
                 recurse_depth -= 1;
@@ -387,6 +389,8 @@ impl<I: Iterator<Item = u8>> BitIter<I> {
         let n_bits = 8 - self.read_bits;
         let masked_padding = self.cached_byte & ((1u8 << n_bits) - 1);
         if masked_padding != 0 {
+            #[cfg(feature = "verif-hooks")]
+            crate::verif::probe(6);
             Err(CloseError::IllegalPadding {
                 masked_padding,
                 n_bits,
